@@ -90,14 +90,15 @@ void yv_free (void *p) { free (p); }
 /* Script reader.                                                       */
 static char *script; static size_t spos, slen;
 
+static int is_sep (char c) { return c == ' ' || c == '\n' || c == '\t' || c == '\r' || c == '\0'; }
 static char *next_tok (void)
 {
   char *s;
-  while (spos < slen && (script[spos] == ' ' || script[spos] == '\n' || script[spos] == '\t' || script[spos] == '\r'))
+  while (spos < slen && is_sep (script[spos]))
     spos++;
   if (spos >= slen) return NULL;
   s = script + spos;
-  while (spos < slen && !(script[spos] == ' ' || script[spos] == '\n' || script[spos] == '\t' || script[spos] == '\r'))
+  while (spos < slen && !is_sep (script[spos]))
     spos++;
   if (spos < slen) script[spos++] = '\0';
   return s;
@@ -630,11 +631,42 @@ static void skip_case (void)
     ;
 }
 
+static void reset_case_state (void)
+{
+  int i;
+  for (i = 0; i < MAX_SLOTS; i++) slots[i] = NULL;
+  for (i = 0; i < MAX_PARSES; i++) roots[i] = NULL;
+  n_parses = 0; n_blocks = 0; n_free_log = 0; n_serrs = 0; cur_parse = -1;
+  yv_fail_at = -1; yv_fail_seen = 0;
+}
+
+/* Print the kept diagnostic lines of a child's stderr.  */
+static void print_stderr_lines (char *ebuf)
+{
+  char *line = ebuf, *nl; int kept = 0;
+  printf (",\"stderr\":[");
+  while (line && *line && kept < 6)
+    {
+      nl = strchr (line, '\n');
+      if (nl) *nl = 0;
+      if (strstr (line, "ERROR:") || strstr (line, "SUMMARY:") || strstr (line, "runtime error")
+	  || strstr (line, "Assertion") || strstr (line, "    #0 ") || strstr (line, "    #1 ") || strstr (line, "    #2 "))
+	{ if (kept) putchar (','); { FILE *sv = out; out = stdout; jstr (line); out = sv; } kept++; }
+      line = nl ? nl + 1 : NULL;
+    }
+  printf ("]");
+}
+
+/* The parent forks a worker that runs up to BATCH cases in sequence; when
+   the worker dies inside a case, that case gets an "abort" record and a new
+   worker continues with the next case.  BATCH = 1 isolates every case.  */
 int main (int argc, char **argv)
 {
-  FILE *f; char *t; long timeout_s = 20;
-  if (argc < 2) { fprintf (stderr, "usage: yv_driver script [timeout_s]\n"); return 2; }
+  FILE *f; long timeout_s = 20, batch = 1;
+  if (argc < 2) { fprintf (stderr, "usage: yv_driver script [timeout_s [batch]]\n"); return 2; }
   if (argc > 2) timeout_s = strtol (argv[2], NULL, 10);
+  if (argc > 3) batch = strtol (argv[3], NULL, 10);
+  if (batch < 1) batch = 1;
   f = fopen (argv[1], "rb");
   if (!f) { perror (argv[1]); return 2; }
   fseek (f, 0, SEEK_END); slen = (size_t) ftell (f); fseek (f, 0, SEEK_SET);
@@ -642,30 +674,47 @@ int main (int argc, char **argv)
   if (fread (script, 1, slen, f) != slen) { perror ("read"); return 2; }
   script[slen] = 0; fclose (f);
   out = stdout;
-  while ((t = next_tok ()) != NULL)
+  for (;;)
     {
-      char *id; pid_t pid; int status; int pfd[2], efd[2]; size_t save;
-      if (strcmp (t, "CASE") != 0) { fprintf (stderr, "yv_driver: expected CASE, got %s\n", t); return 3; }
-      id = next_tok ();
+      pid_t pid; int status; int pfd[2], efd[2]; size_t save;
+      /* peek: is there another case?  */
       save = spos;
+      {
+	char *t = next_tok ();
+	if (t == NULL) break;
+	if (strcmp (t, "CASE") != 0) { fprintf (stderr, "yv_driver: expected CASE, got %s\n", t); return 3; }
+	spos = save;
+	/* next_tok wrote a NUL after CASE; harmless: tokens are re-read from SAVE */
+      }
       fflush (stdout);
       if (pipe (pfd) != 0 || pipe (efd) != 0) { perror ("pipe"); return 2; }
       pid = fork ();
       if (pid == 0)
 	{
+	  long k;
 	  close (pfd[0]); close (efd[0]);
 	  dup2 (efd[1], 2); close (efd[1]);
 	  out = fdopen (pfd[1], "w");
-	  alarm ((unsigned) timeout_s);
-	  run_case ();
-	  fflush (out);
+	  for (k = 0; k < batch; k++)
+	    {
+	      char *t = next_tok (), *id;
+	      if (t == NULL) break;
+	      id = next_tok ();
+	      fprintf (out, "@S %s\n", id); fflush (out);
+	      alarm ((unsigned) timeout_s);
+	      reset_case_state ();
+	      fprintf (out, "@R ");
+	      run_case ();
+	      fprintf (out, "\n@E\n"); fflush (out);
+	      alarm (0);
+	    }
 	  fclose (out);
-	  exit (0);		/* LeakSanitizer runs here */
+	  exit (0);		/* LeakSanitizer (when enabled) runs here */
 	}
       else
 	{
-	  /* Parent: read both pipes until EOF.  */
 	  char *obuf = NULL, *ebuf = NULL; size_t on = 0, en = 0, ocap = 0, ecap = 0; int oopen = 1, eopen = 1;
+	  long done = 0; char *cur_id = NULL; char *line, *nl; int in_case = 0; char *ops = NULL;
 	  close (pfd[1]); close (efd[1]);
 	  while (oopen || eopen)
 	    {
@@ -684,41 +733,70 @@ int main (int argc, char **argv)
 		{
 		  k = read (efd[0], tmp, sizeof tmp);
 		  if (k <= 0) eopen = 0;
-		  else if (en < 6000) { if (en + k + 1 > ecap) { ecap = (en + k + 1) * 2; ebuf = (char *) realloc (ebuf, ecap); } memcpy (ebuf + en, tmp, k); en += k; }
+		  else
+		    {
+		      if (en + k > 60000) { size_t keep = 8000; memmove (ebuf, ebuf + en - keep, keep); en = keep; }
+		      if (en + k + 1 > ecap) { ecap = (en + k + 1) * 2; ebuf = (char *) realloc (ebuf, ecap); }
+		      memcpy (ebuf + en, tmp, k); en += k;
+		    }
 		}
 	    }
 	  close (pfd[0]); close (efd[0]);
 	  waitpid (pid, &status, 0);
 	  if (obuf) obuf[on] = 0;
 	  if (ebuf) ebuf[en] = 0;
-	  printf ("{\"id\":");
-	  jstr (id);
-	  printf (",\"ops\":[%s]", obuf ? obuf : "");
-	  if (WIFSIGNALED (status))
-	    printf (",\"abort\":\"signal %d\"", WTERMSIG (status));
-	  else if (WIFEXITED (status) && WEXITSTATUS (status) != 0)
-	    printf (",\"abort\":\"exit %d\"", WEXITSTATUS (status));
-	  if ((WIFSIGNALED (status) || (WIFEXITED (status) && WEXITSTATUS (status) != 0)) && ebuf)
+	  /* walk the worker's output */
+	  line = obuf;
+	  while (line && *line)
 	    {
-	      /* keep the diagnostic lines of the report (or of a failed assertion) */
-	      char *line = ebuf, *nl; int kept = 0;
-	      printf (",\"stderr\":[");
-	      while (line && *line && kept < 6)
+	      nl = strchr (line, '\n');
+	      if (nl) *nl = 0;
+	      if (strncmp (line, "@S ", 3) == 0) { cur_id = line + 3; in_case = 1; ops = NULL; }
+	      else if (strncmp (line, "@R ", 3) == 0) ops = line + 3;
+	      else if (strcmp (line, "@E") == 0 && in_case)
 		{
-		  nl = strchr (line, '\n');
-		  if (nl) *nl = 0;
-		  if (strstr (line, "ERROR:") || strstr (line, "SUMMARY:") || strstr (line, "runtime error")
-		      || strstr (line, "Assertion") || strstr (line, "    #0 ") || strstr (line, "    #1 ") || strstr (line, "    #2 "))
-		    { if (kept) putchar (','); { FILE *sv = out; out = stdout; jstr (line); out = sv; } kept++; }
-		  line = nl ? nl + 1 : NULL;
+		  printf ("{\"id\":"); { FILE *sv = out; out = stdout; jstr (cur_id); out = sv; }
+		  printf (",\"ops\":[%s]}\n", ops ? ops : "");
+		  in_case = 0; done++;
 		}
-	      printf ("]");
+	      line = nl ? nl + 1 : NULL;
 	    }
-	  printf ("}\n");
+	  if (in_case)
+	    {
+	      /* the worker died (or was killed by the watchdog) inside this case */
+	      printf ("{\"id\":"); { FILE *sv = out; out = stdout; jstr (cur_id); out = sv; }
+	      printf (",\"ops\":[%s]", ops ? ops : "");
+	      if (WIFSIGNALED (status)) printf (",\"abort\":\"signal %d\"", WTERMSIG (status));
+	      else printf (",\"abort\":\"exit %d\"", WIFEXITED (status) ? WEXITSTATUS (status) : -1);
+	      if (ebuf) print_stderr_lines (ebuf);
+	      printf ("}\n");
+	      done++;
+	    }
+	  else if ((WIFSIGNALED (status) || (WIFEXITED (status) && WEXITSTATUS (status) != 0)) && done > 0)
+	    {
+	      /* all cases completed but the worker did not exit cleanly (leak report at exit) */
+	      printf ("{\"id\":\"@exit\",\"after\":"); { FILE *sv = out; out = stdout; jstr (cur_id ? cur_id : ""); out = sv; }
+	      if (WIFSIGNALED (status)) printf (",\"abort\":\"signal %d\"", WTERMSIG (status));
+	      else printf (",\"abort\":\"exit %d\"", WEXITSTATUS (status));
+	      if (ebuf) print_stderr_lines (ebuf);
+	      printf ("}\n");
+	    }
+	  if (done == 0)
+	    {
+	      /* worker died before starting a case: skip one to guarantee progress */
+	      char *t = next_tok (), *id;
+	      (void) t; id = next_tok ();
+	      printf ("{\"id\":"); { FILE *sv = out; out = stdout; jstr (id ? id : "?"); out = sv; }
+	      printf (",\"ops\":[],\"abort\":\"worker died before the case\"}\n");
+	      skip_case ();
+	    }
+	  else
+	    {
+	      long k;
+	      for (k = 0; k < done; k++) { next_tok (); next_tok (); skip_case (); }
+	    }
 	  fflush (stdout);
 	  free (obuf); free (ebuf);
-	  spos = save;
-	  skip_case ();
 	}
     }
   return 0;
